@@ -55,17 +55,17 @@ def all_queries(tier):
         for (ops, hs) in SEQ2:
             for s0 in sel0s: qs.append(scen(pol, ops, hs, s0, S12))
         for (ops, hs) in (SEQ2 if not quick else SEQ2[:4]):
-            for s0 in (range(len(S12)) if not quick else ((3, 8) if pol == 1 else ((8,) if pol == 2 else (4,)))): qs.append(scen(pol, ops, hs, s0, S12, faults=1))
+            for s0 in (((1, 3, 7, 8, 10, 11) if pol != 3 else (0, 2, 3, 4, 5)) if not quick else ((3, 8) if pol == 1 else ((8,) if pol == 2 else (4,)))): qs.append(scen(pol, ops, hs, s0, S12, faults=1))
         for (ops, hs) in (SEQ3 if not quick else (SEQ3[1:4] if pol == 1 else SEQ3[2:3])):
-            for s0 in (range(6) if not quick else (1, 4)):
-                for s1 in (range(6) if not quick else (3, 5)): qs.append(scen(pol, ops, hs, s0, S6, sel1=s1, timeout=1500, mem=6))
+            for s0 in ((1, 3, 4) if not quick else (1, 4)):
+                for s1 in ((1, 3, 5) if not quick else (3, 5)): qs.append(scen(pol, ops, hs, s0, S6, sel1=s1, timeout=1500, mem=6))
         for (pf, psz, ops, hs, s0) in (PRE if pol != 3 else PRE[:3]):
             if pol == 3: s0 = 3
             qs.append(scen(pol, ops, hs, s0, S12, prefill=pf, presize=psz))
         if not quick:
             for (ops, hs) in SEQ3[:5]:
-                for s0 in range(6):
-                    for s1 in (1, 3, 4): qs.append(scen(pol, ops, hs, s0, S6, faults=1, sel1=s1, timeout=2400, mem=8, optional=True))
+                for s0 in (1, 4):
+                    for s1 in (3,): qs.append(scen(pol, ops, hs, s0, S6, faults=1, sel1=s1, timeout=900, mem=8, optional=True))
     for (ops, hs) in SEQ2:                      # configuration with page size == superblock size (frame lookup of blocks that start on a superblock boundary)
         for s0 in ((3, 8, 10) if quick else range(12)): qs.append(scen(4, ops, hs, s0, SIZES12))
     # lock-set discipline on every access of the translated pool code (C05): all two-operation sequences + the filled-slab scenarios, policy 1
@@ -75,8 +75,8 @@ def all_queries(tier):
     # two calls, one preempted by the other at lock-operation granularity (C05 first sentence, one-preemption slice): sizes from the 6-entry table
     PRE2 = [([0, 0], [0, 0], (0, 0)), ([0, 1], [0, 0], (0, 0)), ([0, 0], [0, 0], (1, 0)), ([0, 3], [0, 0], (0, 0)), ([0, 0], [0, 0], (3, 0))]
     for (ops, hs, pre) in PRE2:
-        for s0 in ((3,) if quick else range(6)):
-            for s1 in ((1, 3, 4) if quick else range(6)): qs.append(scen(1, ops, hs, s0, SIZES6, sel1=s1, preempt=pre, timeout=2400, mem=8))
+        for s0 in ((3,) if quick else (1, 3, 4)):
+            for s1 in ((1, 3, 4) if quick else (1, 3, 4, 5)): qs.append(scen(1, ops, hs, s0, SIZES6, sel1=s1, preempt=pre, timeout=2400, mem=8))
     # the class is exactly full (6 blocks of 64): free one while another thread allocates / both allocate (both find the class without a partial slab)
     for s1 in (1, 3, 4):
         qs.append(scen(1, [1, 0], [2, 0], 3, SIZES6, sel1=s1, prefill=6, presize=64, preempt=(0, 0), timeout=2400, mem=8))
@@ -86,8 +86,8 @@ def all_queries(tier):
     for s0 in (0, 1): qs.append(scen(3, [0, 3], [0, 0], s0, [0, 8, 24]))
     if not quick:
         for (ops, hs) in SEQ4:
-            for s0 in (1, 3, 4):
-                for s1 in (1, 4): qs.append(scen(1, ops, hs, s0, SIZES6, sel1=s1, timeout=3600, mem=12, optional=True))
+            for s0 in (3,):
+                for s1 in (1,): qs.append(scen(1, ops, hs, s0, SIZES6, sel1=s1, timeout=900, mem=12, optional=True))
     return qs
 def select(tier, pred):
     return [q for q in all_queries(tier) if pred(q.tag)]
